@@ -102,6 +102,7 @@ func VerifC10_step() {
 		join:              make([]int, 0, JS),
 		output:            make(chan []int, 1),
 	}
+	vKnownFields(d, "opts breaker interruptInterval join output passAt unreleased")
 	d.resetPassAt()
 	P := vNow() // passAt
 	accept := make([]int64, 0, JS)
